@@ -90,7 +90,7 @@ impl DcpsDomainParticipant {
                                 *type_support,
                                 cache_change.data_value.as_ref(),
                             ) else {
-                                continue 'data_readers;
+                                continue;
                             };
                             enum Operator {
                                 LessThan,
@@ -137,10 +137,10 @@ impl DcpsDomainParticipant {
                                 let Some(member_id) =
                                     data.get_member_id_by_name(variable_name.trim())
                                 else {
-                                    continue 'data_readers;
+                                    continue;
                                 };
                                 let Ok(member_descriptor) = data.get_descriptor(member_id) else {
-                                    continue 'data_readers;
+                                    continue;
                                 };
                                 match member_descriptor.r#type.get_kind() {
                                     crate::xtypes::dynamic_type::TypeKind::NONE => todo!(),
@@ -155,7 +155,7 @@ impl DcpsDomainParticipant {
                                                 .parse()
                                                 .expect("valid number"),
                                         ) {
-                                            continue 'data_readers;
+                                            continue;
                                         }
                                     }
                                     crate::xtypes::dynamic_type::TypeKind::INT64 => todo!(),
@@ -177,7 +177,7 @@ impl DcpsDomainParticipant {
                                             member_value,
                                             &content_filtered_topic.expression_parameters[0],
                                         ) {
-                                            continue 'data_readers;
+                                            continue;
                                         }
                                     }
                                     crate::xtypes::dynamic_type::TypeKind::ALIAS => todo!(),
@@ -194,7 +194,7 @@ impl DcpsDomainParticipant {
                                     crate::xtypes::dynamic_type::TypeKind::MAP => todo!(),
                                 }
                             } else {
-                                continue 'data_readers;
+                                continue;
                             };
                         }
                         (
